@@ -280,7 +280,8 @@ example :
 written from; they stop holding (and the check reports them as broken, together with the failing
 histories the correspondence streams find) when the source changes the key, the order of look-up,
 handler call and store, the hit test, a store on one of the two dispatch paths, the place a caching
-class takes in an MRO, or what a rewrite of the optimizer does. -/
+class takes in an MRO, what a `__call__` override passes on, or what a rewrite of the optimizer
+does. -/
 
 open PV.Generated
 
@@ -417,19 +418,28 @@ theorem cache_state_current :
 
 def cmCall := "pymbolic.mapper.CachedMapper.__call__"
 
-/-- the caching classes whose `__call__` does not reach `CachedMapper.__call__` properly (finding
-`cached-stringify-call-unbound`) -/
-def c05BrokenCall : List String := ["CachedStringifyMapper"]
+/-- does a `__call__` override do nothing but enter `CachedMapper.__call__` on the SAME instance
+with everything it received: the instance is passed, `expr` and the override's own defaulted
+parameters (they become leading extra arguments, hence part of the key) come first, `*args` and
+`**kwargs` follow -/
+def c05HandsOver (o : C05CallOverride) : Bool :=
+  o.targetFn == cmCall && o.passesSelf && o.forwardsAll
 
-/-- is `c` dispatched by `CachedMapper.__call__`: `__call__` AND `rec` (what the handlers recurse
-through) resolve to that one function, `get_cache_key` to `CachedMapper`'s, `rec_fallback` to
-`Mapper`'s dispatch, and `__init__` reaches `CachedMapper.__init__` -/
-def c05Wrapped (c : C05Class) : Bool :=
-  c05Resolve c05Defines "__call__" c.mro == some cmCall &&
+/-- is `c` dispatched by `CachedMapper.__call__`, given the `__call__` overrides `ovs`: `__call__`
+is that function or an override that hands over to it (`c05HandsOver`); `rec` (what the handlers
+recurse through) IS that function; `get_cache_key` is `CachedMapper`'s, `rec_fallback` is `Mapper`'s
+dispatch, and `__init__` reaches `CachedMapper.__init__` -/
+def c05WrappedBy (ovs : List C05CallOverride) (c : C05Class) : Bool :=
+  (match c05Resolve c05Defines "__call__" c.mro with
+    | some f => f == cmCall || ovs.any (fun o => o.fn == f && c05HandsOver o)
+    | none => false) &&
   c05Resolve c05Defines "rec" c.mro == some cmCall &&
   c05Resolve c05Defines "get_cache_key" c.mro == some "pymbolic.mapper.CachedMapper.get_cache_key" &&
   c05Resolve c05Defines "rec_fallback" c.mro == some "pymbolic.mapper.Mapper.rec_fallback" &&
   c.initReachesCacheInit
+
+/-- … with the overrides of the current source -/
+def c05Wrapped (c : C05Class) : Bool := c05WrappedBy c05CallOverrides c
 
 /-- **The memoizing classes of the current source**: every subclass of `CachedMapper` and of
 `CSECachingMapperMixin` defined in a pymbolic module (a new one must be looked at). -/
@@ -449,30 +459,67 @@ theorem caching_classes_current :
        "pymbolic.mapper.evaluator.EvaluationMapper", "FloatEvaluationMapper"] := by
   decide
 
-/-- **The cache wraps every handler — by MRO.**  For every `CachedMapper` subclass of the current
-source except the one listed in `c05BrokenCall`, Python's attribute look-up along the regenerated
-MRO (first class whose body defines the name) gives: `__call__` and `rec` are both
-`CachedMapper.__call__` (top-level calls AND the `self.rec` calls inside every inherited handler go
-through the look-up), the key is `CachedMapper.get_cache_key`, the fallback path is
-`Mapper.rec_fallback`, and `__init__` reaches the creation of `_cache`.  So
+/-- **The cache wraps every handler — by MRO.**  For EVERY `CachedMapper` subclass of the current
+source, Python's attribute look-up along the regenerated MRO (first class whose body defines the
+name) gives: `rec` is `CachedMapper.__call__` (the `self.rec` calls inside every inherited handler
+go through the look-up: children are memoized, not only the top-level expression); `__call__` is
+that same function or — `CachedStringifyMapper` — an override that only hands over to it on the same
+instance with everything it received (`c05HandsOver`); the key is `CachedMapper.get_cache_key`, the
+fallback path is `Mapper.rec_fallback`, and `__init__` reaches the creation of `_cache`.  So
 `cache_protocol_current` — hence `cached_refines_plain`, `at_most_once` — is about each of them:
-cached identity / combine / collector / walk / dependency / evaluation / substitution mappers, the
-flop and node counters. -/
-theorem cache_wraps_handlers_current_partial :
-    ∀ c ∈ c05CachedClasses, c.name ∉ c05BrokenCall → c05Wrapped c = true := by
+cached identity / combine / collector / walk / dependency / evaluation / substitution / stringify
+mappers, the flop and node counters.  (Before repo commit 8a72a90 this was
+`cache_wraps_handlers_current_partial`, with `CachedStringifyMapper` excluded.) -/
+theorem cache_wraps_handlers_current : ∀ c ∈ c05CachedClasses, c05Wrapped c = true := by
   decide
 
-/-- **Finding** (`cached-stringify-call-unbound`): `CachedStringifyMapper(StringifyMapper,
-CachedMapper)` defines its own `__call__`, which hands over to `CachedMapper.__call__` WITHOUT
-passing the instance (`CachedMapper.__call__(expr, prec, *args, **kwargs)`): every top-level call
-raises `AttributeError` where `StringifyMapper` returns the text; only `rec` (inherited) is the
-memoizing dispatcher. -/
-theorem cached_stringify_call_cex :
-    ∃ c ∈ c05CachedClasses, c.name = "CachedStringifyMapper" ∧ c05Wrapped c = false ∧
+/-- **`CachedStringifyMapper` in the current source.**  Its MRO is `[CachedStringifyMapper,
+StringifyMapper, CachedMapper, Mapper]`: `StringifyMapper.__call__` (which goes to the NON-memoizing
+`Mapper.__call__`) would come before `CachedMapper`'s, and the class overrides `__call__` to undo
+that: `def __call__(self, expr, prec=PREC_NONE, *args, **kwargs): return
+CachedMapper.__call__(self, expr, prec, *args, **kwargs)` — the instance is passed, the defaulted
+precedence becomes the first extra argument, everything else is forwarded.  `rec` is not
+overridden on that MRO, so it is `CachedMapper.__call__` directly: every child is looked up and
+stored under `(type(child), child, (prec, …), {})`.  The enclosing precedence is therefore part of
+every key (`key_separates_args`): a subtree printed once with and once without parentheses has two
+entries. -/
+theorem cached_stringify_call_current :
+    c05CallOverrides =
+      [⟨"CachedStringifyMapper", "pymbolic.mapper.stringifier.CachedStringifyMapper.__call__",
+        "CachedMapper", cmCall, true, [("prec", "PREC_NONE")], true⟩] ∧
+    ∃ c ∈ c05CachedClasses, c.name = "CachedStringifyMapper" ∧
+      c.mro = ["CachedStringifyMapper", "StringifyMapper", "CachedMapper", "Mapper"] ∧
       c05Resolve c05Defines "__call__" c.mro
         = some "pymbolic.mapper.stringifier.CachedStringifyMapper.__call__" ∧
+      c05Resolve c05Defines "__call__" (c.mro.drop 1)
+        = some "pymbolic.mapper.stringifier.StringifyMapper.__call__" ∧
       c05Resolve c05Defines "rec" c.mro = some cmCall ∧
-      c05CallOverrides = [⟨"CachedStringifyMapper", "CachedMapper", false⟩] := by
+      c05Wrapped c = true := by
+  refine ⟨by decide, _, List.mem_of_getElem? (i := 11) rfl, ?_⟩
+  decide
+
+/-- the precedence the override inserts separates keys: `x + y` as a term of a sum (`PREC_SUM` = 11)
+and as a factor of a product (`PREC_PRODUCT` = 12, printed in parentheses) are two entries; the same
+precedence is one -/
+example :
+    let e := Expr.nary .sum [.var "x", .var "y"]
+    Key.eq ⟨e, { args := [.int 11] }⟩ ⟨e, { args := [.int 12] }⟩ = false ∧
+    Key.eq ⟨e, { args := [.int 11] }⟩ ⟨e, { args := [.int 11] }⟩ = true := by
+  decide
+
+/-- **The OLD override, before repo commit 8a72a90** (finding `cached-stringify-call-unbound`, now
+fixed; the row below is written down here, it is NOT regenerated): `return
+CachedMapper.__call__(expr, prec, *args, **kwargs)` did not pass the instance — `expr` was taken for
+`self` and every top-level call raised `AttributeError` where `StringifyMapper` returns the text.
+With that row the class is not wrapped; `c05Wrapped` tells the two apart, so the return of the
+defect breaks `cache_wraps_handlers_current`. -/
+theorem cached_stringify_old_override_cex :
+    let old : C05CallOverride :=
+      ⟨"CachedStringifyMapper", "pymbolic.mapper.stringifier.CachedStringifyMapper.__call__",
+       "CachedMapper", cmCall, false, [("prec", "PREC_NONE")], false⟩
+    ∃ c ∈ c05CachedClasses, c.name = "CachedStringifyMapper" ∧
+      c05WrappedBy [old] c = false ∧ c05WrappedBy [{ old with passesSelf := true }] c = false ∧
+      c05WrappedBy [{ old with passesSelf := true, forwardsAll := true }] c = true := by
   refine ⟨_, List.mem_of_getElem? (i := 11) rfl, ?_⟩
   decide
 
